@@ -84,13 +84,16 @@ VX long verif_lists(int op, unsigned n1, const double* a, unsigned n2, const dou
 // ---- C20: In_Units overloads.  op: 1 scalar  2 scalar rounded(digits)  3 std::vector  4 vector<vector> (rows x cols)  5 Vector  6 Matrix ; out receives the converted values
 VX long verif_in_units(int op, unsigned rows, unsigned cols, const double* q, double unit, unsigned digits, int ragged, double* out)
 {
+	const bool rnd = op >= 10;	// op 13..17: the container overloads with round = true and the given digits
+	if(rnd)
+		op -= 10;
 	switch(op)
 	{
 		case 1: out[0] = In_Units(q[0], unit); return 1;
 		case 2: out[0] = In_Units(q[0], unit, true, (int) digits); return 1;
 		case 3:
 		{
-			std::vector<double> v(q, q + cols), r = In_Units(v, unit);
+			std::vector<double> v(q, q + cols), r = rnd ? In_Units(v, unit, true, (int) digits) : In_Units(v, unit);
 			for(unsigned k = 0; k < r.size(); k++)
 				out[k] = r[k];
 			return r.size();
@@ -103,7 +106,7 @@ VX long verif_in_units(int op, unsigned rows, unsigned cols, const double* q, do
 					t[i][j] = q[i * cols + j];
 			if(ragged && rows > 1)
 				t[rows - 1].pop_back();
-			std::vector<std::vector<double>> r = In_Units(t, unit);
+			std::vector<std::vector<double>> r = rnd ? In_Units(t, unit, true, (int) digits) : In_Units(t, unit);
 			unsigned k = 0;
 			for(auto& row : r)
 				for(double x : row)
@@ -113,7 +116,7 @@ VX long verif_in_units(int op, unsigned rows, unsigned cols, const double* q, do
 		case 5:
 		{
 			Vector v(std::vector<double>(q, q + cols));
-			Vector r = In_Units(v, unit);
+			Vector r = rnd ? In_Units(v, unit, true, (int) digits) : In_Units(v, unit);
 			for(unsigned k = 0; k < r.Size(); k++)
 				out[k] = r[k];
 			return r.Size();
@@ -124,7 +127,7 @@ VX long verif_in_units(int op, unsigned rows, unsigned cols, const double* q, do
 			for(unsigned i = 0; i < rows; i++)
 				for(unsigned j = 0; j < cols; j++)
 					t[i][j] = q[i * cols + j];
-			Matrix M(t), r = In_Units(M, unit);
+			Matrix M(t), r = rnd ? In_Units(M, unit, true, (int) digits) : In_Units(M, unit);
 			unsigned k = 0;
 			for(unsigned i = 0; i < r.Rows(); i++)
 				for(unsigned j = 0; j < r.Columns(); j++)
@@ -142,7 +145,7 @@ VX long verif_in_units(int op, unsigned rows, unsigned cols, const double* q, do
 			std::vector<double> dims(cols);
 			for(unsigned j = 0; j < cols; j++)
 				dims[j] = (j + 1) * unit;
-			std::vector<std::vector<double>> r = In_Units(t, dims);
+			std::vector<std::vector<double>> r = rnd ? In_Units(t, dims, true, (int) digits) : In_Units(t, dims);
 			unsigned k = 0;
 			for(auto& row : r)
 				for(double x : row)
